@@ -2026,6 +2026,26 @@ func genCase(r *lib.Rng, tier string) *Case {
 	if r.Chance(1, 3) { // tools that watch the context they are called with
 		c.CtxTools = r.Pick([]string{"stop", "report"})
 	}
+	// round 7: the conversation the caller hands over need not end with a user message (few-shot examples, a
+	// prefilled / continued answer, an exchange whose answer is still due): the history is the original
+	// messages followed by what the agent records, whatever the original messages look like
+	if len(c.Input) > 0 && r.Chance(1, 4) {
+		pend := TCall{"pend1", c.Tools[0].Name, `{"q":"pending"}`}
+		switch r.Intn(5) {
+		case 0: // a prefilled / few-shot plain assistant message
+			c.Input = append(c.Input, Msg{Role: 2, Content: "prefilled answer"})
+		case 1: // the very message the model is about to give first (same content, same tool calls)
+			st := c.Script[0]
+			c.Input = append(c.Input, Msg{Role: 2, Content: st.Content, Calls: append([]TCall(nil), st.Calls...)})
+		case 2: // an assistant message whose tool call has not been answered
+			c.Input = append(c.Input, Msg{Role: 2, Content: "", Calls: []TCall{pend}})
+		case 3: // ... answered: the conversation ends with a tool message
+			c.Input = append(c.Input, Msg{Role: 2, Content: "", Calls: []TCall{pend}},
+				Msg{Role: 3, Content: "pending result", TCID: "pend1"})
+		default: // a trailing system message
+			c.Input = append(c.Input, Msg{Role: 0, Content: "reminder"})
+		}
+	}
 	return c
 }
 
@@ -2372,6 +2392,14 @@ func (engine) Run(ci any) lib.Result {
 		res.Tags = append(res.Tags, fmt.Sprintf("concurrent-runs-are-the-agent's-first:%v", c.ConcFirst))
 	}
 	res.Tags = append(res.Tags, fmt.Sprintf("original-messages:%d", len(c.Input)))
+	if n := len(c.Input); n > 0 {
+		last := c.Input[n-1]
+		ends := []string{"system", "user", "assistant", "tool"}[last.Role&3]
+		if last.Role == 2 && len(last.Calls) > 0 {
+			ends = "assistant-with-tool-calls"
+		}
+		res.Tags = append(res.Tags, "original-messages-end-with:"+ends)
+	}
 	res.Nontrivial = len(gen.Rounds) >= 1
 	return res
 }
